@@ -140,6 +140,7 @@ class App(object):
         from clastic import Application, Middleware, Route, GET, POST, render_json
         from clastic.middleware import SimpleProfileMiddleware, GzipMiddleware, HTTPCacheMiddleware
         from clastic.middleware.stats import StatsMiddleware
+        from clastic.middleware.cookie import SignedCookieMiddleware
         from clastic import errors
         from werkzeug.wrappers import Response
         self.errors = errors
@@ -246,7 +247,11 @@ class App(object):
                             Route('/num/<n:int>', ep_n), Route('/flt/<n?float>/x', ep_n), Route('/br/', ep_resp),
                             Route('/prof', ep_resp, middlewares=[SimpleProfileMiddleware()]),
                             # the same endpoint behind the stock middlewares that look at every outcome
-                            Route('/st', ep_resp, middlewares=[StatsMiddleware(), GzipMiddleware(), HTTPCacheMiddleware()]),
+                            Route('/st', ep_resp, middlewares=[StatsMiddleware(), GzipMiddleware(), HTTPCacheMiddleware(),
+                                                               SignedCookieMiddleware(secret_key=b'c08', expiry=600)]),
+                            # the same endpoint in an application of its own, embedded: its failures are the serving
+                            # application's error handler's business
+                            ('/sub', Application([Route('/n', ep_resp)])),
                             Route('/jsonbad', lambda: {'o': object(), 'g': (x for x in [1])}, render_json),
                             Route('/jsonbad2', lambda: {1: object()}, render_json)],
                            middlewares=[mk(0), mk(1), mk(2)], **kw)
@@ -368,6 +373,16 @@ def check_one(acc, A, handler, beh, bclass, where, route, accept):
     cl = res.header('Content-Length')
     if cl is not None and int(cl) != len(res.body):
         bad('content-length', 'Content-Length %s but %d body bytes' % (cl, len(res.body)))
+    if route == '/sub/n':
+        # the embedded route answers like the serving application's own route: same handler, same rendering
+        ctl.where, ctl.beh, ctl.raised, ctl.fired = where, beh, None, False
+        own = wsgi.call(A.app, '/n', 'GET', headers=hdrs)
+        ctl.beh = None
+        acc.transitions += 1
+        ct = lambda r: (r.header('Content-Type') or '').split(';')[0] if r.headers else None
+        if (own.code, ct(own)) != (res.code, ct(res)):
+            bad('embedded-route-differs', 'the serving application\'s own route answers %s (%s), the embedded one %s (%s)'
+                % (own.status, ct(own), res.status, ct(res)))
     if handler == 'other_error_kwonly':
         twin = A.twin
         twin.ctl.where, twin.ctl.beh, twin.ctl.raised, twin.ctl.fired = where, beh, None, False
@@ -473,7 +488,7 @@ def layer_a_items(tier):
     for handler in HANDLERS:
         for where in positions():
             # '/item' is followed by a method-restricted sibling route on the same path
-            for route in ('/r', '/n', '/item', '/st', '/n#short-form'):
+            for route in ('/r', '/n', '/item', '/st', '/n#short-form', '/sub/n'):
                 items.append((handler, where, route))
     return items
 
